@@ -46,6 +46,11 @@ def main():
     vb, _ = sched.validate(bad, fix)
     expect("scheduler: a dropped event is rejected", not vb[1]["accepted"])
 
+    # a job that can never run (request above the capacity): the engine must report the hang, not swallow it
+    from .sched import P
+    res = sched.execute([(P({"a": {"tok": {"t": 2}}}, [["submit", "a"], ["wait"]], {"t": 1}), "random", 1)], workers=1)
+    expect("scheduler: an experiment that cannot finish is reported as a hang", res[0].get("verdict", {}).get("end") == "hang", str(res[0].get("verdict")))
+
     # 2. job directory histories (E2-job / XpmJobDir_Trace)
     from . import e2_jobdir as e2
     from . import jobdir
